@@ -1586,6 +1586,16 @@ _dispatch_wait_compute_wlh(dispatch_lane_t dq, dispatch_sync_context_t dsc)
 	}
 
 	dispatch_queue_t tq = dq->do_targetq;
+	if (needs_locking) {
+		// The caller found an inner queue, but dispatch_set_target_queue() may
+		// have moved `dq` onto a root queue since. Under the side lock the role
+		// of `dq` and its target queue are consistent: look again.
+		uint64_t dq_state = os_atomic_load2o(dq, dq_state, relaxed);
+		if (unlikely(_dq_state_is_base_anon(dq_state) ||
+				_dq_state_is_base_wlh(dq_state))) {
+			tq = dq->_as_dq;
+		}
+	}
 	uint64_t tq_state = _dispatch_wait_prepare(tq);
 
 	if (_dq_state_is_suspended(tq_state) ||
@@ -3267,16 +3277,12 @@ _dispatch_lane_legacy_set_target_queue(void *ctxt)
 	}
 
 	tq = _dispatch_queue_priority_inherit_from_target(dq, tq);
-	_dispatch_lane_inherit_wlh_from_target(dq, tq);
-#if HAVE_PTHREAD_WORKQUEUE_QOS
-	// see _dispatch_queue_wakeup()
+	// see _dispatch_queue_wakeup() and _dispatch_wait_compute_wlh(): the role
+	// of the queue and its target queue change together under the side lock
 	_dispatch_queue_sidelock_lock(dq);
-#endif
+	_dispatch_lane_inherit_wlh_from_target(dq, tq);
 	dq->do_targetq = tq;
-#if HAVE_PTHREAD_WORKQUEUE_QOS
-	// see _dispatch_queue_wakeup()
 	_dispatch_queue_sidelock_unlock(dq);
-#endif
 
 	_dispatch_object_debug(dq, "%s", __func__);
 	_dispatch_introspection_target_queue_changed(dq->_as_dq);
